@@ -127,6 +127,9 @@ def rem(a, b):
         return const(0)
     if a.lo >= 0 and a.hi < b.lo:
         return a
+    # (x mod m1) mod m2 = x mod m2 when m2 | m1 (constants)
+    if a.op == "rem" and is_const(b) and is_const(a.args[1]) and cval(b) > 0 and cval(a.args[1]) % cval(b) == 0:
+        return rem(a.args[0], b)
     return _mk("rem", (a, b), 0, max(0, min(a.hi, b.hi - 1)))
 
 
@@ -376,11 +379,16 @@ class IntPrinter:
         if op in ("and", "or"):
             return "(%s %s)" % (op, " ".join(self.p(x) for x in a))
         if op.startswith("bit"):
+            # bit operations are uninterpreted binary functions with a range axiom per application
+            # (sound over-approximation; congruence keeps equal operands -> equal results)
+            fn = "%s%d" % (op, a[2])
+            if fn not in self.arrays:
+                self.arrays[fn] = True
+                self.decls.append("(declare-fun %s (Int Int) Int)" % fn)
+            r = "(%s %s %s)" % (fn, self.p(a[0]), self.p(a[1]))
             nm = self.fresh("bitop")
-            self.decls.append("(declare-const %s Int)" % nm)
+            self.decls.append("(define-fun %s () Int %s)" % (nm, r))
             self.decls.append("(assert (and (<= 0 %s) (<= %s %d)))" % (nm, nm, t.hi))
-            # keep functional consistency: same operands -> same node -> same name (hash-consing)
-            self.p(a[0]); self.p(a[1])
             self.abstracted.append("%s(%s)" % (op, nm))
             return nm
         if op == "uf":
